@@ -56,6 +56,9 @@ CONSTANTS
   FixVaArg,    \* TRUE: va_arg classifies aggregates per psABI                     (D22, aggregates, repaired)
   FixVaArgLd,  \* TRUE: __builtin_reg_class(long double) = memory               (D22, long double, repaired)
   FixRetRax,   \* TRUE: a MEMORY-class return leaves the hidden pointer in rax
+  FixRetLoad,  \* TRUE: copy_struct_reg loads 4 bytes for the second eightbyte of a 12-byte aggregate (tests size == 12, not 4)
+  FixZero,     \* TRUE: a zero-sized aggregate (GNU C `struct {}`) occupies no register and no stack slot
+  FixPacked,   \* TRUE: an aggregate with an unaligned field (packed struct) is passed and returned in memory
   Waived,      \* disagreement classes recorded as open findings
   MaxLen,      \* bound on the number of arguments of a behaviour
   RetSel,      \* return kinds explored ({} = all)
@@ -69,6 +72,8 @@ FP_MAX == 8
 (* Structural types *)
 Sc(k)    == [k |-> k, n |-> 0, m |-> <<>>]
 St(ms)   == [k |-> "struct", n |-> 0, m |-> ms]
+Pk(ms)   == [k |-> "struct", n |-> 1, m |-> ms]            \* struct __attribute__((packed)): every member at alignment 1
+Al(a, t) == [k |-> "aligned", n |-> a, m |-> <<t>>]        \* a member declared `_Alignas(a) t` (only as a struct member)
 Un(ms)   == [k |-> "union", n |-> 0, m |-> ms]
 Ar(t, n) == [k |-> "array", n |-> n, m |-> <<t>>]
 
@@ -84,23 +89,30 @@ Max2(x, y) == IF x > y THEN x ELSE y
 Min2(x, y) == IF x < y THEN x ELSE y
 
 RECURSIVE SizeOf(_), AlignOf(_), StructEnd(_, _, _)
+Packed(T) == T.k = "struct" /\ T.n = 1
 AlignOf(T) == IF T.k = "array" THEN AlignOf(T.m[1])
+              ELSE IF T.k = "aligned" THEN Max2(T.n, AlignOf(T.m[1]))
+              ELSE IF Packed(T) THEN 1
               ELSE IF IsAgg(T) THEN FoldLeft(LAMBDA a, t : Max2(a, AlignOf(t)), 1, T.m)
               ELSE ScalarSize(T.k)
-(* running end offset after the first i members of a struct *)
-StructEnd(ms, i, j) == IF j > i THEN 0 ELSE
-                       IF i = 0 THEN 0 ELSE Up(StructEnd(ms, i - 1, j), AlignOf(ms[i])) + SizeOf(ms[i])
+(* alignment of member i inside T: 1 in a packed struct *)
+MAlign(T, i) == IF Packed(T) THEN 1 ELSE AlignOf(T.m[i])
+(* running end offset after the first i members of struct T *)
+StructEnd(T, i, j) == IF j > i THEN 0 ELSE
+                      IF i = 0 THEN 0 ELSE Up(StructEnd(T, i - 1, j), MAlign(T, i)) + SizeOf(T.m[i])
 SizeOf(T) == IF T.k = "array" THEN T.n * SizeOf(T.m[1])
-             ELSE IF T.k = "struct" THEN Up(StructEnd(T.m, Len(T.m), 1), AlignOf(T))
+             ELSE IF T.k = "aligned" THEN SizeOf(T.m[1])
+             ELSE IF T.k = "struct" THEN Up(StructEnd(T, Len(T.m), 1), AlignOf(T))
              ELSE IF T.k = "union" THEN Up(FoldLeft(LAMBDA a, t : Max2(a, SizeOf(t)), 0, T.m), AlignOf(T))
              ELSE ScalarSize(T.k)
-MemberOff(T, i) == IF T.k = "union" THEN 0 ELSE Up(StructEnd(T.m, i - 1, 1), AlignOf(T.m[i]))
+MemberOff(T, i) == IF T.k = "union" THEN 0 ELSE Up(StructEnd(T, i - 1, 1), MAlign(T, i))
 
 (* scalar leaves with their byte offsets *)
 RECURSIVE Leaves(_, _)
 Leaves(T, off) ==
   IF IsAgg(T) THEN FoldLeft(LAMBDA acc, i : acc \o Leaves(T.m[i], off + MemberOff(T, i)), <<>>, [i \in 1..Len(T.m) |-> i])
   ELSE IF T.k = "array" THEN FoldLeft(LAMBDA acc, i : acc \o Leaves(T.m[1], off + (i - 1) * SizeOf(T.m[1])), <<>>, [i \in 1..T.n |-> i])
+  ELSE IF T.k = "aligned" THEN Leaves(T.m[1], off)
   ELSE <<[k |-> T.k, off |-> off]>>
 
 -----------------------------------------------------------------------------
@@ -118,23 +130,30 @@ LeafClassAt(l, j) ==      \* class the leaf contributes to eightbyte j (0-based)
   ELSE IF l.k \in FltKinds THEN "SSE" ELSE "INTEGER"
 EightClasses(T) == LET ls == Leaves(T, 0) IN
   [j \in 1..(Up(SizeOf(T), 8) \div 8) |-> FoldLeft(LAMBDA c, l : Merge(c, LeafClassAt(l, j - 1)), "NO", ls)]
+(* a field that does not sit at a multiple of its alignment (possible in a packed struct only) *)
+Unaligned(T) == \E i \in DOMAIN Leaves(T, 0) : LET l == Leaves(T, 0)[i] IN l.off % ScalarSize(l.k) # 0
+(* An eightbyte without any field (trailing padding of an over-aligned aggregate, `struct { _Alignas(16) long a; }`)
+   keeps class NO_CLASS: it is passed and returned in no register (validated against gcc and clang). *)
 Classify(T) ==
   IF T.k \in IntKinds THEN <<"INTEGER">>
   ELSE IF T.k \in FltKinds THEN <<"SSE">>
   ELSE IF T.k = "ldouble" THEN <<"X87", "X87UP">>
   ELSE IF SizeOf(T) > 16 THEN <<"MEMORY">>                  \* no __m256 in the domain
+  ELSE IF Unaligned(T) THEN <<"MEMORY">>                    \* "... or it contains unaligned fields, it has class MEMORY"
   ELSE LET cs == EightClasses(T) IN
        IF \E j \in DOMAIN cs : cs[j] = "MEMORY" THEN <<"MEMORY">>
        ELSE IF \E j \in DOMAIN cs : cs[j] = "X87UP" /\ (j = 1 \/ cs[j - 1] # "X87") THEN <<"MEMORY">>
        ELSE cs
 Cnt(cs, c) == Cardinality({j \in DOMAIN cs : cs[j] = c})
-InMem(cs) == cs[1] \in {"MEMORY", "X87"}                  \* X87 class arguments are passed in memory
+InMem(cs) == cs # <<>> /\ cs[1] \in {"MEMORY", "X87"}      \* X87 class arguments are passed in memory; a zero-sized
+                                                           \* aggregate has no eightbyte at all (class NO_CLASS, see below)
 
 (* Level I: codegen.c has_flonum(ty, lo, hi, offset), literally *)
 RECURSIVE HasFlonum(_, _, _, _)
 HasFlonum(T, lo, hi, off) ==
   IF IsAgg(T) THEN \A i \in DOMAIN T.m : HasFlonum(T.m[i], lo, hi, off + MemberOff(T, i))
   ELSE IF T.k = "array" THEN \A i \in 0..(T.n - 1) : HasFlonum(T.m[1], lo, hi, off + SizeOf(T.m[1]) * i)
+  ELSE IF T.k = "aligned" THEN HasFlonum(T.m[1], lo, hi, off)        \* (Member.ty is the declared type; the alignment is in Member.align)
   ELSE off < lo \/ hi <= off \/ T.k \in FltKinds
 HasLd(T) == \E i \in DOMAIN Leaves(T, 0) : Leaves(T, 0)[i].k = "ldouble"
 
@@ -174,6 +193,27 @@ KindSeq == <<
   \* of memory arguments and of va_arg's overflow cursor)
   [n |-> "See",  t |-> St(<<Sc("ldouble"), Sc("ldouble")>>)],
   [n |-> "Sel",  t |-> St(<<Sc("ldouble"), Sc("long")>>)],
+  \* zero-sized aggregates (GNU C; psABI class NO_CLASS).  Level A is what gcc AND clang do (validated over this
+  \* whole alphabet in registers, at register exhaustion, as variadic arguments and as return values): the argument
+  \* takes no register and no stack slot, va_arg of it consumes nothing, a zero-sized value is returned in no register.
+  [n |-> "S0",   t |-> St(<<>>)],
+  [n |-> "U0",   t |-> Un(<<>>)],
+  [n |-> "S0w",  t |-> St(<<St(<<>>)>>)],
+  [n |-> "Sz",   t |-> St(<<Ar(Sc("int"), 0)>>)],
+  \* an empty member beside others does not change the class of the eightbyte
+  [n |-> "S0i",  t |-> St(<<St(<<>>), Sc("int")>>)],
+  [n |-> "Sd0",  t |-> St(<<Sc("double"), St(<<>>)>>)],
+  \* 12 bytes with a floating second eightbyte: the callee's `return` loads must stop at the object's end
+  [n |-> "Siif", t |-> St(<<Sc("int"), Sc("int"), Sc("float")>>)],
+  \* packed aggregates: an unaligned field makes the whole aggregate class MEMORY (psABI 3.2.3); `Pic` is packed
+  \* but every field is aligned, so it is classified like any other struct; `Pcd` (9 bytes) has a field that
+  \* straddles the two eightbytes
+  [n |-> "Pcf",  t |-> Pk(<<Sc("char"), Sc("float")>>)],
+  [n |-> "Pcd",  t |-> Pk(<<Sc("char"), Sc("double")>>)],
+  [n |-> "Pic",  t |-> Pk(<<Sc("int"), Sc("char")>>)],
+  \* over-aligned aggregates: 16 bytes of which the second eightbyte is padding only (class NO_CLASS: no register)
+  [n |-> "Al",   t |-> St(<<Al(16, Sc("long"))>>)],
+  [n |-> "Ad",   t |-> St(<<Al(16, Sc("double"))>>)],
   \* return-only kinds
   [n |-> "v",    t |-> Sc("void")],
   [n |-> "b",    t |-> Sc("bool")],
@@ -185,7 +225,10 @@ KindSeq == <<
 RetOnly == {"v", "b", "c", "uc", "s", "us"}
 AllNames == {KindSeq[i].n : i \in DOMAIN KindSeq}
 ST(nm) == KindSeq[CHOOSE i \in DOMAIN KindSeq : KindSeq[i].n = nm].t
-Feature(T) == IF IsAgg(T) /\ HasLd(T) /\ SizeOf(T) <= 16 THEN "x87agg"
+Feature(T) == IF IsAgg(T) /\ SizeOf(T) = 0 THEN "agg0"
+              ELSE IF IsAgg(T) /\ SizeOf(T) <= 16 /\ Unaligned(T) THEN "unaligned"
+              ELSE IF IsAgg(T) /\ SizeOf(T) > 8 /\ SizeOf(T) <= 16 /\ ~HasLd(T) /\ EightClasses(T)[2] = "NO" THEN "padeight"
+              ELSE IF IsAgg(T) /\ HasLd(T) /\ SizeOf(T) <= 16 THEN "x87agg"
               ELSE IF T.k = "ldouble" THEN "ldouble"
               ELSE IF IsAgg(T) THEN (IF SizeOf(T) <= 8 THEN "agg<=8" ELSE IF SizeOf(T) <= 16 THEN "agg<=16" ELSE "agg>16")
               ELSE IF T.k \in FltKinds THEN "sse" ELSE "int"
@@ -197,7 +240,9 @@ KInfo == [nm \in AllNames |-> LET T == ST(nm) IN
            [k |-> T.k, agg |-> IsAgg(T), size |-> IF T.k = "void" THEN 0 ELSE SizeOf(T), align |-> IF T.k = "void" THEN 1 ELSE AlignOf(T),
             cs |-> IF T.k = "void" THEN <<"NO">> ELSE Classify(T),
             fp1 |-> HasFlonum(T, 0, 8, 0), fp2 |-> HasFlonum(T, 8, 16, 0), fp2c |-> HasFlonum(T, 8, 16, 8),
-            hasld |-> HasLd(T), feat |-> Feature(T)]]
+            hasld |-> HasLd(T), feat |-> Feature(T),
+            unal |-> IsAgg(T) /\ Unaligned(T),                                     \* has an unaligned field
+            pad2 |-> IsAgg(T) /\ SizeOf(T) > 8 /\ SizeOf(T) <= 16 /\ ~Unaligned(T) /\ EightClasses(T)[2] = "NO"]]
 ParamKinds == IF ParamSel = {} THEN AllNames \ RetOnly ELSE ParamSel
 RetKinds == IF RetSel = {} THEN AllNames ELSE RetSel
 (* a variadic argument has undergone the default promotions *)
@@ -207,7 +252,9 @@ TailKinds == ParamKinds \ {"f"}
 -----------------------------------------------------------------------------
 (* Level A: the allocator.  a = [gp, sse, stk]; location = [mem, regs, off] *)
 R(r, i) == [r |-> r, i |-> i]
-RegSeq(cs, gp, sse) == [j \in DOMAIN cs |->
+(* (an eightbyte of class NO_CLASS - only ever the last one, see the ASSUME at the end - gets no register) *)
+RegCs(cs) == SelectSeq(cs, LAMBDA c : c # "NO")
+RegSeq(cs0, gp, sse) == LET cs == RegCs(cs0) IN [j \in DOMAIN cs |->
    IF cs[j] = "INTEGER" THEN R("gp", gp + Cnt(SubSeq(cs, 1, j - 1), "INTEGER"))
    ELSE R("sse", sse + Cnt(SubSeq(cs, 1, j - 1), "SSE"))]
 APass(T, a) ==
@@ -222,8 +269,9 @@ APass(T, a) ==
 (* Level A: return.  Sequence of places, <<"mem">> = hidden pointer in rdi, returned in rax *)
 ARet(T) ==
   IF T.k = "void" THEN <<>>
-  ELSE LET cs == T.cs IN
-       IF cs[1] = "MEMORY" THEN <<"mem">>
+  ELSE LET cs == RegCs(T.cs) IN
+       IF cs = <<>> THEN <<>>                                  \* zero-sized: nothing is returned
+       ELSE IF cs[1] = "MEMORY" THEN <<"mem">>
        ELSE IF cs[1] = "X87" THEN <<"st0">>
        ELSE [j \in DOMAIN cs |-> IF cs[j] = "INTEGER"
                                   THEN (IF Cnt(SubSeq(cs, 1, j - 1), "INTEGER") = 0 THEN "rax" ELSE "rdx")
@@ -243,7 +291,7 @@ CalleeSaved == {"rbx", "rbp", "rsp", "r12", "r13", "r14", "r15", "x87 control wo
 VaInitA(a) == [gp |-> 8 * a.gp, fp |-> 48 + 16 * a.sse, ovf |-> a.stk, okc |-> TRUE, oko |-> TRUE]
 SaveRegA(off) == IF off < 48 THEN R("gp", off \div 8) ELSE R("sse", (off - 48) \div 16)
 WalkA(T, v) ==
-  LET cs == T.cs
+  LET cs == RegCs(T.cs)
       ni == Cnt(cs, "INTEGER")
       ns == Cnt(cs, "SSE") IN
   IF ~InMem(cs) /\ v.gp + 8 * ni <= 48 /\ v.fp + 16 * ns <= 176
@@ -258,16 +306,20 @@ WalkA(T, v) ==
 B(b) == IF b THEN 1 ELSE 0
 
 (* register demand of a <= 16-byte aggregate as the three copies of the test compute it *)
+(* (pinned: has_flonum is vacuously true for an aggregate without members, so a zero-sized aggregate is
+   charged - and popped into, and spilled from - one SSE register that nothing was pushed for) *)
+ZeroI(T) == FixZero /\ T.agg /\ T.size = 0
 AggNeed(T, fp2) ==
   LET fp1 == T.fp1
       two == IF FixPhantom THEN T.size > 8 ELSE TRUE IN
-  [fp |-> B(fp1) + B(two /\ fp2), gp |-> B(~fp1) + B(two /\ ~fp2)]
+  IF ZeroI(T) THEN [fp |-> 0, gp |-> 0]
+  ELSE [fp |-> B(fp1) + B(two /\ fp2), gp |-> B(~fp1) + B(two /\ ~fp2)]
 AggFits(c, need) == IF FixLE THEN c.fp + need.fp <= FP_MAX /\ c.gp + need.gp <= GP_MAX
                     ELSE c.fp + need.fp < FP_MAX /\ c.gp + need.gp < GP_MAX
 (* `if (gp++ >= GP_MAX)`: the pinned code keeps counting past the limit, which then poisons the
    aggregate test `gp + n <= GP_MAX` even for n = 0; the repaired code stops at the limit *)
 Over == IF FixLE THEN 0 ELSE 1
-AggInRegsI(T) == T.size <= 16 /\ (FixX87 => ~T.hasld)
+AggInRegsI(T) == T.size <= 16 /\ (FixX87 => ~T.hasld) /\ (FixPacked => ~T.unal)
 
 (* push_args: c = [gp, fp, stack] -> pass_by_stack?, memory offset of the argument, c' *)
 CallerDecide(T, c) ==
@@ -294,7 +346,8 @@ AggRegs(T, p) ==
       fp2 == T.fp2
       r1  == IF fp1 THEN R("sse", p.fp) ELSE R("gp", p.gp)
       p1  == IF fp1 THEN [p EXCEPT !.fp = @ + 1] ELSE [p EXCEPT !.gp = @ + 1]
-  IN IF T.size > 8 THEN <<r1, IF fp2 THEN R("sse", p1.fp) ELSE R("gp", p1.gp)>> ELSE <<r1>>
+  IN IF ZeroI(T) THEN <<>>
+     ELSE IF T.size > 8 THEN <<r1, IF fp2 THEN R("sse", p1.fp) ELSE R("gp", p1.gp)>> ELSE <<r1>>
 Bump(p, regs) == [p EXCEPT !.gp = @ + Cardinality({j \in DOMAIN regs : regs[j].r = "gp"}),
                            !.fp = @ + Cardinality({j \in DOMAIN regs : regs[j].r = "sse"})]
 
@@ -343,7 +396,7 @@ SaveRegI(off) == IF off < 48 THEN R("gp", off \div 8) ELSE R("sse", (off - 48) \
 RegClassI(T) == IF T.k \in IntKinds THEN 0 ELSE IF IsFlonumI(T) THEN 1 ELSE 2
 WalkI(T, v) ==
   IF (FixVaArg /\ T.agg) \/ (FixVaArgLd /\ T.k = "ldouble") THEN   \* repaired: psABI walker on chibicc's save-area layout
-    LET cs == T.cs
+    LET cs == RegCs(T.cs)
         ni == Cnt(cs, "INTEGER")
         ns == Cnt(cs, "SSE") IN
     IF ~InMem(cs) /\ v.gp + 8 * ni <= 48 /\ v.fp + FpStride * ns <= 48 + FpStride * 8
@@ -369,18 +422,18 @@ RetAggRegsI(T) ==
       fp2 == T.fp2
       r1  == IF fp1 THEN "xmm0" ELSE "rax"
       r2  == IF fp2 THEN (IF fp1 THEN "xmm1" ELSE "xmm0") ELSE (IF fp1 THEN "rax" ELSE "rdx")
-  IN IF T.size > 8 THEN <<r1, r2>> ELSE <<r1>>
+  IN IF ZeroI(T) THEN <<>> ELSE IF T.size > 8 THEN <<r1, r2>> ELSE <<r1>>
 RetI(T) ==
   IF T.k = "void" THEN <<>>
   ELSE IF T.agg THEN (IF FixX87 /\ T.hasld /\ T.size <= 16 THEN <<"st0">>
-                         ELSE IF T.size <= 16 THEN RetAggRegsI(T) ELSE <<"mem">>)
+                         ELSE IF T.size <= 16 /\ ~(FixPacked /\ T.unal) THEN RetAggRegsI(T) ELSE <<"mem">>)
   ELSE IF T.k \in FltKinds THEN <<"xmm0">>
   ELSE IF T.k = "ldouble" THEN <<"st0">>
   ELSE <<"rax">>
 RetCalleeI(T) == RetI(T)       \* copy_struct_reg and copy_ret_buffer repeat the same two tests
 RetCallerI(T) == RetI(T)
 (* copy_struct_mem leaves the address of the callee's own object in rax *)
-RetRaxI(T) == IF T.agg /\ T.size > 16 THEN (IF FixRetRax THEN "hidden" ELSE "local") ELSE "n/a"
+RetRaxI(T) == IF T.agg /\ (T.size > 16 \/ (FixPacked /\ T.unal)) THEN (IF FixRetRax THEN "hidden" ELSE "local") ELSE "n/a"
 NarrowI(T) == CASE T.k = "bool" -> "zx8" [] T.k = "char" -> "sx8" [] T.k = "uchar" -> "zx8"
                 [] T.k = "short" -> "sx16" [] T.k = "ushort" -> "zx16" [] OTHER -> "none"
 (* bytes copy_ret_buffer writes for eightbyte j of a register-returned aggregate (must not exceed the object) *)
@@ -388,7 +441,18 @@ RetStoreBytesI(T, j) ==
   LET sz == T.size IN
   IF j = 1 THEN (IF T.fp1 THEN (IF sz = 4 THEN 4 ELSE 8) ELSE Min2(8, sz))
   ELSE (IF T.fp2 THEN (IF sz = 12 THEN 4 ELSE 8) ELSE Min2(16, sz) - 8)
-HiddenI(T) == T.agg /\ T.size > 16
+(* bytes copy_struct_reg loads for eightbyte j from the object that `return e;` designates.  That object is any
+   lvalue of the program (`return *p;`), so a load wider than the object reads bytes that are not the callee's
+   to read (it faults when the object ends at a page boundary): Level A = ObjBytes, the bytes of eightbyte j
+   that belong to the object.  The pinned code repeats the first eightbyte's `size == 4` test in the second. *)
+RetLoadBytesI(T, j) ==
+  LET sz == T.size IN
+  IF j = 1 THEN (IF T.fp1 THEN (IF sz = 4 THEN 4 ELSE 8) ELSE Min2(8, sz))
+  ELSE (IF T.fp2 THEN (IF sz = (IF FixRetLoad THEN 12 ELSE 4) THEN 4 ELSE 8) ELSE Min2(16, sz) - 8)
+(* bytes emit_text stores into the parameter's home for eightbyte j: store_fp / store_gp(r, offset, MIN(8, size)) and (.., size - 8) *)
+SpillStoreBytesI(T, j) == IF j = 1 THEN Min2(8, T.size) ELSE T.size - 8
+ObjBytes(T, j) == Min2(8, T.size - 8 * (j - 1))
+HiddenI(T) == T.agg /\ (T.size > 16 \/ (FixPacked /\ T.unal))
 
 -----------------------------------------------------------------------------
 VARIABLES
@@ -423,10 +487,12 @@ SigView == <<ret, var, phase, args, nfix, cj, ej, fj, dis, fdis>>
 (* disagreements of a named-parameter transition, by the side that deviates *)
 Cls(T, A, x) == IF A.mem /\ T.align = 16 /\ T.feat # "x87agg" THEN x \o ":align16" ELSE x \o ":" \o T.feat
 CallerDis(T, A, C, P) ==
-     (IF C.mem # (P = <<>>) THEN {Cls(T, A, "caller-push-vs-pop")} ELSE {})
+     (IF (C.mem /\ P # <<>>) \/ (~C.mem /\ Len(P) # Up(T.size, 8) \div 8)     \* pass 2 pushes the argument's eightbytes; the pop loop pops Len(P)
+      THEN {Cls(T, A, "caller-push-vs-pop")} ELSE {})
   \cup (IF A.mem # C.mem \/ (A.mem /\ A.off # C.off) \/ (~A.mem /\ ~C.mem /\ A.regs # P) THEN {Cls(T, A, "caller-vs-psabi")} ELSE {})
 CalleeDis(T, A, E, S) ==
-  IF A.mem # E.mem \/ (A.mem /\ A.off # E.off) \/ (~A.mem /\ ~E.mem /\ A.regs # S) THEN {Cls(T, A, "callee-vs-psabi")} ELSE {}
+     (IF A.mem # E.mem \/ (A.mem /\ A.off # E.off) \/ (~A.mem /\ ~E.mem /\ A.regs # S) THEN {Cls(T, A, "callee-vs-psabi")} ELSE {})
+  \cup (IF T.agg /\ ~T.unal /\ ~E.mem /\ \E j \in DOMAIN S : SpillStoreBytesI(T, j) # ObjBytes(T, j) THEN {Cls(T, A, "callee-spill-overrun")} ELSE {})
 CrossDis(T, A, C, P, E, S) ==
      (IF C.mem # E.mem \/ (C.mem /\ C.off # E.off) THEN {Cls(T, A, "caller-vs-callee-homes")} ELSE {})
   \cup (IF ~E.mem /\ ~C.mem /\ P # S THEN {Cls(T, A, "caller-vs-callee-spill")} ELSE {})
@@ -435,7 +501,8 @@ SrcLoc(src, saveReg(_)) == IF src.mem THEN [mem |-> TRUE, regs |-> <<>>, off |->
                            ELSE [mem |-> FALSE, regs |-> [j \in DOMAIN src.slots |-> saveReg(src.slots[j])], off |-> 0]
 WalkDis(T, A, W, v0, tag) ==
   LET f == T.feat IN
-  IF SrcLoc(W.src, SaveRegI) = A THEN {}
+  IF T.size = 0 THEN (IF W.v = v0 THEN {} ELSE {tag \o ":agg0"})    \* nothing to fetch: the cursors must not move
+  ELSE IF SrcLoc(W.src, SaveRegI) = A THEN {}
   ELSE IF ~v0.okc THEN {tag \o ":named-agg-or-ldouble"}     \* va_start had the wrong register counts
   ELSE IF ~v0.oko /\ W.src.mem THEN {tag \o ":named-on-stack"}  \* va_start did not skip the named stack parameters
   ELSE {tag \o ":" \o f}
@@ -446,12 +513,16 @@ RetDis(T) ==
      (IF ARet(T) # RetCalleeI(T) THEN {"ret-callee-vs-psabi:" \o T.feat} ELSE {})
   \cup (IF ARet(T) # RetCallerI(T) THEN {"ret-caller-vs-psabi:" \o T.feat} ELSE {})
   \cup (IF ARetMem(T) # HiddenI(T) THEN {"ret-hidden-pointer:" \o T.feat} ELSE {})
-  \cup (IF ARetMem(T) /\ RetRaxI(T) # "hidden" THEN {"ret-rax-not-hidden-pointer"} ELSE {})
+  \cup (IF ARetMem(T) /\ HiddenI(T) /\ RetRaxI(T) # "hidden" THEN {"ret-rax-not-hidden-pointer"} ELSE {})
   \cup (IF ANarrow(T) # NarrowI(T) THEN {"ret-narrow"} ELSE {})
-  \cup (IF T.agg /\ T.size <= 16 /\ ~T.hasld
-           /\ \E j \in 1..Len(RetAggRegsI(T)) : 8 * (j - 1) + RetStoreBytesI(T, j) > T.size
+  \cup (IF T.agg /\ T.size > 0 /\ T.size <= 16 /\ ~T.hasld /\ ~T.unal
+           /\ \E j \in 1..Len(RetAggRegsI(T)) : RetStoreBytesI(T, j) # ObjBytes(T, j)
         THEN {"ret-store-overrun"} ELSE {})
+  \cup (IF T.agg /\ T.size > 0 /\ T.size <= 16 /\ ~T.hasld /\ ~T.unal
+           /\ \E j \in 1..Len(RetAggRegsI(T)) : RetLoadBytesI(T, j) # ObjBytes(T, j)
+        THEN {"ret-load-overrun"} ELSE {})
 
+HiddenAgree(T) == ARetMem(T) = HiddenI(T)
 RInfo == [nm \in AllNames |-> [rloc |-> ARet(KInfo[nm]), rdis |-> RetDis(KInfo[nm]), hidden |-> ARetMem(KInfo[nm])]]
 
 Z2 == [gp |-> 0, fp |-> 0]
@@ -467,7 +538,9 @@ Init ==
   /\ sp = [gp |-> B(HiddenI(TY(ret))), fp |-> 0]
   /\ vw = [gp |-> B(HiddenI(TY(ret))), fp |-> 0]
   /\ va = ZV /\ vi = ZV /\ vf = ZV
-  /\ cj = TRUE /\ ej = TRUE /\ fj = TRUE /\ adis = {}
+  \* (a return kind for which chibicc and the psABI disagree about the hidden pointer shifts every integer
+  \*  argument: neither side can be judged on such a behaviour; RetOff emits the bare `k f(void)` for the replay)
+  /\ cj = HiddenAgree(TY(ret)) /\ ej = HiddenAgree(TY(ret)) /\ fj = TRUE /\ adis = {}
   /\ dis = {} /\ fdis = {} /\ last = <<>>
 
 EmitB(k, nf, A, a2, d2, fd2, flags, probe) ==
@@ -645,7 +718,18 @@ Call ==
   /\ last' = [sim |-> CallSim(args, TY(ret), 1), img |-> AImage(args, locs, TY(ret))]
   /\ fdis' = {} /\ UNCHANGED <<ki, ri, ret, var, args, nfix, locs, a, cl, pp, ce, sp, vw, va, vi, vf, cj, ej, fj, adis>>
 
-Next == (\E k \in ParamKinds : PassNamed(k) \/ PassDots(k)) \/ Call
+(* both sides off from the start (see Init): the behaviour is the call `ret f(void)` alone *)
+RetOff ==
+  /\ phase = "named" /\ args = <<>> /\ ~cj /\ ~ej /\ ~var
+  /\ phase' = "called"
+  /\ UNCHANGED <<ki, ri, ret, var, args, nfix, locs, a, cl, pp, ce, sp, vw, va, vi, vf, cj, ej, fj, adis, dis, fdis, last>>
+  /\ IF Emit
+     THEN CSVWrite("%1$s", <<ToJson([ret |-> ret, var |-> FALSE, nfix |-> 0, args |-> <<>>, locs |-> <<>>,
+                                      gp |-> a.gp, sse |-> 0, stk |-> 0, al |-> 0, from |-> [gp |-> a.gp, sse |-> 0, par |-> 0],
+                                      dis |-> {}, fdis |-> {}, adis |-> {}, cj |-> FALSE, ej |-> FALSE, fj |-> FALSE, probe |-> FALSE,
+                                      retoff |-> TRUE, rloc |-> ri[ret].rloc, rdis |-> ri[ret].rdis, hidden |-> ri[ret].hidden])>>, IOEnv.OUT)
+     ELSE TRUE
+Next == (\E k \in ParamKinds : PassNamed(k) \/ PassDots(k)) \/ Call \/ RetOff
 Spec == Init /\ [][Next]_vars
 
 -----------------------------------------------------------------------------
@@ -664,4 +748,12 @@ ASSUME KInfo["Sfic"].size = 12 /\ KInfo["Sc3"].size = 3 /\ KInfo["Udl"].size = 1
 ASSUME KInfo["Sld"].cs = <<"INTEGER", "SSE">> /\ KInfo["Udl"].cs = <<"INTEGER", "SSE">>
 ASSUME KInfo["Se"].cs = <<"X87", "X87UP">> /\ KInfo["Sif"].cs = <<"INTEGER">>
 ASSUME KInfo["Sfff"].cs = <<"SSE", "SSE">> /\ KInfo["S24"].cs = <<"MEMORY">>
+ASSUME \A z \in {"S0", "U0", "S0w", "Sz"} : KInfo[z].size = 0 /\ KInfo[z].cs = <<>> /\ KInfo[z].feat = "agg0"
+ASSUME KInfo["Sz"].align = 4 /\ KInfo["S0i"].size = 4 /\ KInfo["S0i"].cs = <<"INTEGER">> /\ KInfo["Sd0"].cs = <<"SSE">>
+ASSUME KInfo["Pcf"].size = 5 /\ KInfo["Pcf"].align = 1 /\ KInfo["Pcf"].cs = <<"MEMORY">> /\ KInfo["Pcd"].size = 9 /\ KInfo["Pcd"].cs = <<"MEMORY">>
+ASSUME KInfo["Pic"].size = 5 /\ KInfo["Pic"].cs = <<"INTEGER">> /\ ~KInfo["Pic"].unal
+ASSUME KInfo["Al"].size = 16 /\ KInfo["Al"].align = 16 /\ KInfo["Al"].cs = <<"INTEGER", "NO">> /\ KInfo["Ad"].cs = <<"SSE", "NO">> /\ KInfo["Al"].pad2
+(* NO_CLASS is only ever the class of the LAST eightbyte (RegSeq relies on it) *)
+ASSUME \A nm \in AllNames : LET cs == KInfo[nm].cs IN \A j \in DOMAIN cs : (cs[j] = "NO" /\ KInfo[nm].k # "void") => j = Len(cs) /\ j > 1
+ASSUME KInfo["Siif"].size = 12 /\ KInfo["Siif"].cs = <<"INTEGER", "SSE">>
 =============================================================================
